@@ -67,6 +67,7 @@ class Ctx:
         self.ub = []                        # UB found inside an otherwise evaluated expression
         self.arrays = {}                    # member array name -> {index: raw element value} (read through any pointer cast)
         self.objects = {}                   # name of another object (parameter) -> {member: value}
+        self.call_values = {}               # ir.sx(call) -> value, for calls the folding cannot see through (m_buffer.size())
 
 
 def _callee_decl(ctx, n):
@@ -223,6 +224,10 @@ def ev(n, ctx):
     if k == "ConditionalOperator":
         return ev(ks[1], ctx) if ev(ks[0], ctx) else ev(ks[2], ctx)
     if k in ("CXXMemberCallExpr", "CallExpr"):
+        if ctx.call_values:
+            key = ir.sx(n)
+            if key in ctx.call_values:
+                return ctx.call_values[key]
         if ctx.depth > 6:
             raise Unknown("call depth")
         fn, c = _callee_decl(ctx, n)
@@ -242,6 +247,7 @@ def ev(n, ctx):
         sub = Ctx(ctx.d, {}, ctx.members, ctx.depth + 1)
         sub.arrays = ctx.arrays
         sub.objects = ctx.objects
+        sub.call_values = ctx.call_values
         for p, a in zip(ps, args):
             sub.env[p.get("id")] = conv(ev(a, ctx), ir.qtype(p)) if rng(ir.qtype(p)) else ev(a, ctx)
         for v in decls:
